@@ -23,6 +23,7 @@ from ..core import BUILD, hx, parallel_map, sha
 DRIVERS = ["drv_caller"]
 
 NQ = 2            # queries whose ordering points are forced (later ones run free and are only judged)
+_REPORTED = set()
 RUN_TIMEOUT = 25  # seconds; a run that exceeds it counts as "blocks forever"
 
 DIFF = (b"diff --git a/x.rs b/x.rs\nindex 1111111..2222222 100644\n--- a/x.rs\n+++ b/x.rs\n"
@@ -140,11 +141,17 @@ def parse_log(lines):
 def oracle(rep, scen, schedule, run, parsed, reference_out):
     """The property, judged on one run of the implementation. Returns list of failure tags."""
     bad = []
-    replay = dict(scenario=scen, schedule=schedule, rc=run["rc"], log=run["log"][-60:], stderr=run["stderr"])
+    replay = dict(scenario=scen, schedule=schedule, rc=run["rc"], log=run["log"][-60:], stderr=run["stderr"],
+                  stdout_sha=sha(run["stdout"])[:12], stdout_len=len(run["stdout"]),
+                  reference_sha=sha(reference_out)[:12] if reference_out is not None else None)
 
     def v(tag, what):
         bad.append(tag)
-        rep.violation("c20:%s:%s" % (scen, tag), what, replay)
+        sig = "c20:%s:%s" % (scen, tag)
+        rep.count("oracle-failure:" + sig)
+        if sig not in _REPORTED:       # one replay per signature (Report keeps at most 50 entries)
+            _REPORTED.add(sig)
+            rep.violation(sig, what, replay)
 
     if run["rc"] == "timeout":
         v("blocks-forever", "delta did not terminate within %d s under the forced schedule" % RUN_TIMEOUT)
@@ -184,7 +191,7 @@ def model_values(parsed):
     return f
 
 
-def case(ctx, rep, mdl, wd, scen, schedule, kind, idx, reference_out, timeout_ms):
+def case(ctx, rep, mdl, wd, scen, schedule, kind, idx, reference_out, timeout_ms, nq=NQ):
     sc = SCENARIOS[scen]
     run = run_bin(ctx, wd, scen, schedule, "%s-%s-%d" % (scen, kind, idx), timeout_ms=timeout_ms)
     parsed = parse_log(run["log"])
@@ -196,17 +203,18 @@ def case(ctx, rep, mdl, wd, scen, schedule, kind, idx, reference_out, timeout_ms
     f = model_values(parsed)
     checks = []
     for k in sorted(parsed["queries"]):
-        if k <= NQ:
+        if k <= nq:
             checks += ["%d:%s" % (k, f(c)) for c in parsed["queries"][k]["checks"]]
     results = [f(parsed["queries"][k]["checks"][-1]) for k in sorted(parsed["queries"])
-               if k <= NQ and parsed["queries"][k]["ret"] and parsed["queries"][k]["checks"]]
+               if k <= nq and parsed["queries"][k]["ret"] and parsed["queries"][k]["checks"]]
     res.update(impl_checks=";".join(checks), impl_results=",".join(results), nqueries=len(parsed["queries"]))
     return res
 
 
-def model_ask(mdl, scen, schedules):
+def model_ask(mdl, scen, items):
+    """items: [(schedule, nq)]"""
     known = "2" if SCENARIOS[scen]["known"] else "-"
-    return mdl.ask(["caller.run 1 %s %d %s" % (known, NQ, hx(s)) for s in schedules])
+    return mdl.ask(["caller.run 1 %s %d %s" % (known, nq, hx(s)) for s, nq in items])
 
 
 def model_fields(ans):
@@ -236,9 +244,13 @@ def random_merges(ctx, scen, feasible, n):
 
 
 def sure_verdict(model_answer, schedule):
-    """Model verdicts whose counterpart on the binary is unambiguous. A `blocked` lock gate is
-    only surely infeasible on the binary when the blocked thread's next gate follows at once
-    (the gate stands before the lock attempt: the thread would otherwise just wait its turn)."""
+    """Model verdicts whose counterpart on the binary is unambiguous. The binary's scheduler
+    is lenient where the model's executor is strict: a gate that the rest of the schedule
+    does not name passes freely, and a `lock` gate stands before the lock attempt, so
+    * a `mismatch` is surely infeasible on the binary only if the gate the thread really
+      stands at is named later in the schedule (or the thread stands at no gate at all);
+    * a `blocked` lock is surely infeasible only if the blocked thread's next gate follows
+      at once."""
     w = model_answer.split()
     if w[:2] == ["ok", "feasible"]:
         return "feasible"
@@ -246,7 +258,8 @@ def sure_verdict(model_answer, schedule):
         i, why = int(w[2]), w[3]
         ev = schedule.split(",")
         if why == "mismatch":
-            return "infeasible"
+            at = w[4] if len(w) > 4 else "-"
+            return "infeasible" if (at == "-" or at in ev[i:]) else None
         if i + 1 < len(ev) and ev[i + 1].startswith("b") == ev[i].startswith("b"):
             return "infeasible"
     return None
@@ -270,13 +283,49 @@ def run(ctx, rep):
         shutil.rmtree(wd, ignore_errors=True)
 
 
+def shape_check(ctx, rep, mdl):
+    """Statement order extracted from REPO now vs the order the model executes. The same fact
+    is a theorem (Props/C20.lean shape_*); this copy does not depend on the shared Generated/
+    directory (which a concurrent check of another tree may rewrite between extraction and
+    `lake build`) and names the differing list."""
+    import importlib.util
+    from ..core import REPO, ROOT
+    spec = importlib.util.spec_from_file_location("extractor_caller", os.path.join(ROOT, "tools", "extractors", "caller.py"))
+    ex = importlib.util.module_from_spec(spec)
+    spec.loader.exec_module(ex)
+    try:
+        src = ex.strip_hooks_and_comments(ex.strip_tests(ex.read(REPO, "src/utils/process.rs")))
+        got = dict(bg=ex.thread_closure(src), pub=ex.set_calling_process(src), query=ex.query(src))
+    except SystemExit as e:
+        rep.broken_proofs.append("shape of process.rs not recognised: %s" % e)
+        return
+    rep.notes["extracted_shape"] = got
+    if mdl is None:
+        return
+    ans = mdl.ask(["caller.shape"])[0]
+    want = {}
+    for w in ans.split()[1:]:
+        k, v = w.split("=", 1)
+        want[k] = v.split(",")
+    for k in ("bg", "pub", "query"):
+        if got[k] != want.get(k):
+            rep.broken_proofs.append("C20.shape_%s: process.rs executes %s, the model %s"
+                                     % ({"bg": "background", "pub": "publication", "query": "query"}[k], got[k], want.get(k)))
+
+
 def _run(ctx, rep, mdl, wd):
+    shape_check(ctx, rep, mdl)
     jobs = []       # (scen, schedule, kind, timeout)
     feas = {}
     refs = {}
     for scen, sc in SCENARIOS.items():
         r = run_bin(ctx, wd, scen, None, "ref-" + scen)
         p = parse_log(r["log"])
+        if not r["log"]:
+            # the binary has no ordering points: nothing can be forced or observed
+            rep.broken_proofs.append("the build of %s has no C20 ordering points in src/utils/process.rs "
+                                     "(notes/hooks-caller.diff not applied?): no schedule can be forced" % ctx.delta)
+            return
         oracle(rep, scen, "", r, p, None)
         refs[scen] = r["stdout"] if r["rc"] == 0 else None
         rep.count("reference:%s:queries=%d" % (scen, len(p["queries"])))
@@ -295,13 +344,18 @@ def _run(ctx, rep, mdl, wd):
         if scen == "stdin-fakegit" and ctx.quick():
             scheds = scheds[:2] + scheds[-1:]
         for s in scheds:
-            jobs.append((scen, s, "model-schedule", 6000))
+            jobs.append((scen, s, "model-schedule", 6000, NQ))
+        if scen == "rg" and not ctx.quick() and mdl is not None:
+            # the rg scenario makes 4 queries: force the ordering points of three of them
+            ans = mdl.ask(["caller.enum 1 2 3"])[0]
+            for s in (ans.split(" ", 2)[2].split("|") if ans.startswith("ok ") else []):
+                jobs.append((scen, s, "model-schedule-3q", 6000, 3))
         if scen in ("rg", "stdin-guess"):
             for name, s in ATTACKS.items():
                 if ("m." in s) == sc["known"]:
-                    jobs.append((scen, s, "attack:" + name, 700))
+                    jobs.append((scen, s, "attack:" + name, 700, NQ))
             for s in random_merges(ctx, scen, scheds, ctx.n(6, 60)) if scheds else []:
-                jobs.append((scen, s, "random-merge", 700))
+                jobs.append((scen, s, "random-merge", 700, NQ))
     # de-duplicate
     seen, uniq = set(), []
     for j in jobs:
@@ -310,14 +364,14 @@ def _run(ctx, rep, mdl, wd):
             uniq.append(j)
     jobs = uniq
 
-    results = parallel_map(lambda ij: case(ctx, rep, mdl, wd, ij[1][0], ij[1][1], ij[1][2], ij[0], refs[ij[1][0]], ij[1][3]),
+    results = parallel_map(lambda ij: case(ctx, rep, mdl, wd, ij[1][0], ij[1][1], ij[1][2], ij[0], refs[ij[1][0]], ij[1][3], ij[1][4]),
                            list(enumerate(jobs)), workers=12)
     by_scen = {}
-    for (scen, s, kind, _), res in zip(jobs, results):
-        by_scen.setdefault(scen, []).append((s, kind, res))
+    for (scen, s, kind, _, nq), res in zip(jobs, results):
+        by_scen.setdefault(scen, []).append((s, kind, res, nq))
     for scen, items in by_scen.items():
-        answers = model_ask(mdl, scen, [s for s, _, _ in items]) if mdl else [None] * len(items)
-        for (s, kind, res), ans in zip(items, answers):
+        answers = model_ask(mdl, scen, [(s, nq) for s, _, _, nq in items]) if mdl else [None] * len(items)
+        for (s, kind, res, _), ans in zip(items, answers):
             both = any(e.startswith("b") for e in s.split(",")) and any(not e.startswith("b") for e in s.split(","))
             rep.case(key=(scen, s), nontrivial=both,
                      sample=dict(scenario=scen, kind=kind, schedule=s, rc=res["rc"], results=res["impl_results"],
@@ -344,7 +398,7 @@ def _run(ctx, rep, mdl, wd):
 
 def stress(ctx, rep, wd, refs):
     """Unforced runs: whatever schedules the OS produces; direct oracle only."""
-    scens = ["rg", "blame", "stdin-guess", "stdin-none"]
+    scens = ["rg", "blame", "stdin-guess", "stdin-none", "stdin-fakegit"]
     n = 2000
 
     def one(i):
@@ -352,12 +406,16 @@ def stress(ctx, rep, wd, refs):
         r = run_bin(ctx, wd, scen, None, "stress-%d" % i)
         p = parse_log(r["log"])
         bad = oracle(rep, scen, "", r, p, refs[scen])
-        first = p["order"][0] if p["order"] else "-"
-        return scen, bad, first
+        # which schedule did the OS produce: was the background thread finished before the first query's check?
+        idx = {ln.split(" ", 1)[0] + ":" + ln.split(" ")[1]: i for i, ln in reversed(list(enumerate(r["log"]))) if " " in ln}
+        b, c = idx.get("done:b.done"), idx.get("check:q1")
+        order = "bg-before-first-query" if (b is not None and c is not None and b < c) else "first-query-before-bg-done"
+        return scen, bad, order
 
-    for scen, bad, first in parallel_map(one, range(n)):
+    for scen, bad, order in parallel_map(one, range(n)):
         rep.evaluations += 1
         rep.count("stress:%s:%s" % (scen, "ok" if not bad else "FAIL"))
+        rep.count("stress-order:%s:%s" % (scen, order))
 
 
 def replay(ctx, rep, obj):
